@@ -128,7 +128,7 @@ def _c08_cmp(multi, fresh, p_idx, h_step, row):
             i, j = np.argwhere(neq)[0]
             return dict(table=name, day_in_season=int(i), col=int(cols[j]), multi=float(A[i, cols[j]]),
                         fresh=float(B[i, cols[j]]), n_cells=int(neq.sum()))
-    if fresh.summary:
+    if fresh.summary and row is not None:
         f0 = fresh.summary[0]
         if not _sum_eq([row[4:]], [f0[4:]]) or f0[3] != h_step - p_idx:
             bad = dict(table="summary", multi=str(row), fresh=str(f0))
@@ -170,7 +170,7 @@ def c08(ctx):
     WP = {"wc_type": "Prop", "method": "Layer", "depth_layer": [1], "value": ["WP"]}
     FC = {"wc_type": "Prop", "method": "Layer", "depth_layer": [1], "value": ["FC"]}
     forced = [   # classes in which a leak between seasons is observable (DESIGN §11)
-        dict(crop="Wheat", station="tunis_climate.txt", irr_method=4, iwc=WP, soil="Loam", soil_kind="builtin", n_seasons=3, off_season=False, start_mode="at", gw=False),
+        dict(crop="Wheat", station="tunis_climate.txt", irr_method=4, iwc=WP, soil="Loam", soil_kind="builtin", n_seasons=4, off_season=False, start_mode="at", gw=False),
         dict(crop="Wheat", station="tunis_climate.txt", irr_method=2, iwc=FC, soil="SandyLoam", soil_kind="builtin", n_seasons=3, off_season=False, start_mode="at", gw=False),
         dict(crop="Maize", station="champion_climate.txt", irr_method=1, iwc=FC, soil_kind="builtin", n_seasons=2, off_season=False, start_mode="before", gw=False),
         dict(crop="MaizeGDD", station="champion_climate.txt", irr_method=0, n_seasons=2, off_season=False, start_mode="at", gw=False),
@@ -217,10 +217,15 @@ def c08(ctx):
         model = multi.model
         cs = model._clock_struct
         start = cs.simulation_start_date
-        for row in multi.summary[1:]:
-            k = row[0]
+        rows_by_season = {row[0]: row for row in multi.summary}
+        last_step = int(multi.flux[:, 0].max()) if multi.flux is not None and len(multi.flux) else -1
+        seasons = [k for k in range(1, len(cs.planting_dates))
+                   if int((cs.planting_dates[k] - start).days) <= last_step]
+        for k in seasons:
+            row = rows_by_season.get(k)
             p_idx = int((cs.planting_dates[k] - start).days)
-            h_step = row[3]
+            # a season the run ends in has no summary row: its days up to the end of the run are compared
+            h_step = row[3] if row is not None else last_step
             sc1 = copy.deepcopy(sc)
             sc1["start"] = cs.planting_dates[k].strftime("%Y/%m/%d")
             sc1["id"] = f"{sc['id']}-fresh{k}"
@@ -480,6 +485,14 @@ def c11(ctx):
         dict(id=11905, start="1990/05/01", end="1991/12/30", weather={"kind": "file", "name": "champion_climate.txt"},
              soil={"type": "SandyLoam"}, crop={"name": "Maize", "planting": "05/01", "harvest": "10/30", "overrides": {"SwitchGDD": 1}},
              irr={"method": 0}, off_season=False),
+        # days before the first planting date are simulated (the model then works on a "fallow" stand-in for the
+        # crop, with its own aeration / rooting values) for crops whose own values differ from that stand-in's
+        dict(id=11906, start="2000/07/01", end="2002/12/30", weather={"kind": "file", "name": "hyderabad_climate.txt"},
+             soil={"type": "ClayLoam"}, crop={"name": "PaddyRice", "planting": "08/01", "overrides": {}},
+             irr={"method": 0}, off_season=True),
+        dict(id=11907, start="1985/09/01", end="1987/09/30", weather={"kind": "file", "name": "tunis_climate.txt"},
+             soil={"type": "Loam"}, crop={"name": "Barley", "planting": "11/01", "overrides": {"Zmin": 0.2}},
+             irr={"method": 2, "IrrInterval": 7}, fm={"bunds": True, "z_bund": 0.05, "bund_water": 80.0}, off_season=False),
     ]
     scs = explicit + scs
     for sc in scs:
@@ -577,6 +590,14 @@ def c12(ctx):
         sc["soil"].setdefault("kwargs", {}).update(z_cn=zcn, z_germ=zgerm, adj_cn=1)
         sc["soil"].pop("dz", None)
         scs.insert(0, sc)
+    # crops with the ET0 adjustment of the stress thresholds switched off, under drought (early senescence adjusts
+    # the senescence threshold every day); a ponded field whose initial bund water exceeds the bund height
+    scs.insert(0, dict(id=12900, start="1982/10/15", end="1984/07/30", weather={"kind": "file", "name": "tunis_climate.txt"},
+                       soil={"type": "SandyLoam"}, crop={"name": "Wheat", "planting": "10/15", "overrides": {"ETadj": 0}},
+                       iwc={"wc_type": "Pct", "method": "Layer", "depth_layer": [1], "value": [40.0]}, irr={"method": 0}, off_season=False))
+    scs.insert(0, dict(id=12901, start="2000/06/20", end="2002/12/30", weather={"kind": "file", "name": "hyderabad_climate.txt"},
+                       soil={"type": "Paddy"}, crop={"name": "PaddyRice", "planting": "07/01", "overrides": {}},
+                       fm={"bunds": True, "z_bund": 0.05, "bund_water": 80.0}, irr={"method": 0}, off_season=False))
     for sc in scs:
         try:
             model = S.build_model(sc)
@@ -814,6 +835,15 @@ def c20(ctx):
             T.append(("bund-params-off", {"fm": dict(fm, bunds=False, z_bund=0.25, bund_water=120.0)}))
         if not fm.get("curve_number_adj"):
             T.append(("cnadj-pct-off", {"fm": dict(fm, curve_number_adj=False, curve_number_adj_pct=float(rng.choice([-20, 15, 30])))}))
+        # the same for the management in force outside the growing season (used on simulated fallow days)
+        ffm = sc.get("ffm") or {}
+        if not ffm.get("mulches"):
+            T.append(("fallow-mulch-params-off", {"ffm": dict(ffm, mulches=False, mulch_pct=80.0, f_mulch=0.9)}))
+            T.append(("fallow-mulch-on-pct0", {"ffm": dict(ffm, mulches=True, mulch_pct=0.0, f_mulch=0.7)}))
+        if not ffm.get("bunds"):
+            T.append(("fallow-bund-params-off", {"ffm": dict(ffm, bunds=False, z_bund=0.25, bund_water=120.0)}))
+        if not ffm.get("curve_number_adj"):
+            T.append(("fallow-cnadj-pct-off", {"ffm": dict(ffm, curve_number_adj=False, curve_number_adj_pct=float(rng.choice([-20, 15, 30])))}))
         T.append(("other-strategy-params", {"irr": irr_other(sc)}))
         if m == 0:
             T.append(("rainfed-eff-wetsurf", {"irr": dict(sc.get("irr") or {"method": 0}, AppEff=55.0, WetSurf=20.0)}))
@@ -883,6 +913,61 @@ def permitted_rejection(err):
     return err is not None and any(err[0] == t and m in err[1] for t, m in PERMITTED)
 
 
+def _own_gdd(method, tbase, tupp, tmin, tmax):
+    """daily growing degree days, written out here (not the repository's function)"""
+    if method == 1:
+        return min(max((tmax + tmin) / 2.0, tbase), tupp) - tbase
+    if method == 2:
+        return (min(max(tmax, tbase), tupp) + min(max(tmin, tbase), tupp)) / 2.0 - tbase
+    return max((min(max(tmax, tbase), tupp) + min(tmin, tupp)) / 2.0, tbase) - tbase
+
+
+def rejection_unjustified(sc, err, model):
+    """a degree-day rejection ("not enough growing degree days", "longer than 1 year") is only a permitted one when it
+    is true: recompute, from the scenario's own weather table, the degree days accumulated from the planting date of
+    the season being set up to the end of the simulation window.  Returns a description when the rejection is
+    contradicted by that computation, else None (also when it cannot be checked)."""
+    try:
+        if err is None or err[0] != "AssertionError" or model is None:
+            return None
+        few, year = "not enough growing degree days" in err[1], "longer than 1 year" in err[1]
+        if not (few or year):
+            return None
+        from aquacrop.entities.crop import Crop
+        c = Crop(sc["crop"]["name"], planting_date=sc["crop"]["planting"], **(sc["crop"].get("overrides") or {}))
+        if int(c.CalendarType) != 2 or int(getattr(c, "SwitchGDD", 0)) == 1 or float(c.Tupp) < float(c.Tbase):
+            return None
+        cs = getattr(model, "_clock_struct", None)
+        start, end = pd.Timestamp(sc["start"]), pd.Timestamp(sc["end"])
+        pdates = list(getattr(cs, "planting_dates", []) or []) if cs is not None else []
+        k = int(getattr(cs, "season_counter", 0)) if cs is not None else 0
+        if pdates and "reset_initial_conditions" in (err[2] if len(err) > 2 else ""):
+            pl = pd.Timestamp(pdates[min(max(k, 0), len(pdates) - 1)])
+        elif pdates:
+            pl = pd.Timestamp(pdates[0])
+        else:
+            mm, dd = [int(x) for x in sc["crop"]["planting"].split("/")]
+            pl = pd.Timestamp(year=start.year, month=mm, day=dd)
+            if pl < start:
+                pl = pd.Timestamp(year=start.year + 1, month=mm, day=dd)
+        w = S.weather_of(sc)
+        w = w[(w["Date"] >= pl) & (w["Date"] <= end)].sort_values("Date")
+        if len(w) == 0:
+            return None
+        g = [_own_gdd(int(c.GDDmethod), float(c.Tbase), float(c.Tupp), float(a), float(b))
+             for a, b in zip(w["MinTemp"].values, w["MaxTemp"].values)]
+        cum = np.cumsum(g)
+        mat = float(c.Maturity)
+        if few and cum[-1] > mat * (1 + 1e-9) + 1e-6:
+            return dict(kind="too-few-degree-days", available=float(cum[-1]), needed=mat, planting=str(pl.date()),
+                        window_end=str(end.date()))
+        if year and cum[-1] > mat and int(np.argmax(cum > mat)) + 1 < 364:
+            return dict(kind="longer-than-a-year", days_to_maturity=int(np.argmax(cum > mat)) + 1, planting=str(pl.date()))
+    except Exception:  # noqa: BLE001
+        return None
+    return None
+
+
 def c16_cell(sc):
     """run one catalogue cell; returns None if fine, else a violation-description dict"""
     import signal
@@ -892,7 +977,7 @@ def c16_cell(sc):
     signal.signal(signal.SIGALRM, on_alarm)
     signal.alarm(120)
     try:
-        tr = rec.run_scenario(sc, S.build_model)
+        tr = rec.run_scenario(sc, S.build_model, keep_model=True)
     except TimeoutError as e:
         signal.alarm(0)
         return dict(key="does-not-terminate", what="run does not terminate within 120 s", error=str(e))
@@ -901,6 +986,11 @@ def c16_cell(sc):
     if tr.error:
         err = (tr.error[0], tr.error[1])
         if permitted_rejection(err):
+            why = rejection_unjustified(sc, tr.error, tr.model)
+            tr.model = None
+            if why is not None:
+                return dict(key="unjustified-rejection-" + why["kind"], error=list(tr.error),
+                            what="the run is rejected for a reason that is not true of its inputs", detail=why)
             return dict(ok="rejected")
         where = tr.error[2].split(":")
         fn = where[0].split("/")[-1].replace(".py", "") if where and where[0] else "unknown"
@@ -1085,7 +1175,13 @@ def c17(ctx):
                     prev = ks
                 nontriv += 1
         prevH = prevC = None
-        for T in temps:
+        # the crop's own thresholds and points strictly between them belong to the lattice
+        extra = set()
+        for lo_, hi_ in ((float(c.Tmax_up), float(c.Tmax_lo)), (float(c.Tmin_lo), float(c.Tmin_up))):
+            for k8 in range(9):
+                extra.add(lo_ + (hi_ - lo_) * k8 / 8.0)
+            extra.update([lo_ - 1e-6, lo_ + 1e-6, hi_ - 1e-6, hi_ + 1e-6])
+        for T in sorted(set(temps.tolist()) | extra):
             kh, _ = temperature_stress(c, float(T), 10.0)
             _, kc = temperature_stress(c, 30.0, float(T))
             evals += 2
